@@ -166,7 +166,10 @@ def check_refusal(fd, inj):
         ti = inj['track'] % len(mid.tracks)
         tr = mid.tracks[ti]
         pos = inj['pos'] % (len(tr) + 1)
-        if kind == 'realtime':
+        if kind == 'unencodable':
+            # a text the file's charset (latin1) cannot represent, lone surrogates included: nothing can be stored for it
+            tr.insert(pos, mido.MetaMessage(inj['mtype'], **{inj['attr']: inj['text']}))
+        elif kind == 'realtime':
             tr.insert(pos, mido.Message(inj['rt'], time=inj.get('time', 0)))
         else:
             # the bad time goes onto a message that is stored as such: end_of_track messages are merged away by
@@ -390,6 +393,16 @@ def main(ctx):
     ctx.check({'kind': 'roundtrip', 'file': {'type': 1, 'tpb': 480, 'tracks': [big, big[:10]]}}, sample=False)
     ctx.check({'kind': 'roundtrip', 'file': {'type': 1, 'tpb': 96, 'tracks': [[pm] for pm in big[:300]]}}, sample=False)
     ctx.check({'kind': 'roundtrip', 'file': {'type': 2, 'tpb': 1, 'tracks': [[] for _ in range(260)]}}, sample=False)
+    two_dumps = [{'type': 'sysex', 'data': [(i * 5) % 128 for i in range(600000)], 'time': 1},
+                 {'type': 'note_on', 'channel': 0, 'note': 1, 'velocity': 2, 'time': 0},
+                 {'type': 'sysex', 'data': [(i * 7) % 128 for i in range(600000)], 'time': 2}]
+    ctx.check({'kind': 'roundtrip', 'file': {'type': 1, 'tpb': 480, 'tracks': [two_dumps]}}, sample=False)
+    for text in ('caf\udce9', '\udc80', 'snow\u2603man', '\ud800', 'x\U0001F3B5'):
+        for tname, attr in (('track_name', 'name'), ('lyrics', 'text')):
+            ctx.check({'kind': 'refusal', 'file': {'type': 1, 'tpb': 96, 'tracks': [[{'type': 'note_on', 'channel': 0, 'note': 5,
+                                                                                  'velocity': 6, 'time': 1}]]},
+                       'inj': {'kind': 'unencodable', 'track': 0, 'pos': 1, 'mtype': tname, 'attr': attr, 'text': text}},
+                      sample=False)
     long_track = [{'type': 'control_change', 'channel': i % 16, 'control': i % 128, 'value': (i * 3) % 128, 'time': (i * 7) % 300}
                   if i % 97 else {'type': 'marker', 'text': f'bar {i}', 'time': 0} for i in range(30000)]
     ctx.check({'kind': 'roundtrip', 'file': {'type': 0, 'tpb': 960, 'tracks': [long_track]}, 'via': 'filename'}, sample=False)
